@@ -1,5 +1,6 @@
 import Driver.Proto
 import AGH.Spec.ClientID
+import AGH.Spec.ClientIDE2E
 open Driver AGH AGH.C16
 
 def parseProto (s : String) : Option Proto :=
@@ -78,6 +79,9 @@ structure St where
   /-- what the spec expects `attr r` to return: the id extracted from the last
   request with number r that passed HandleBefore -/
   expect : List (Nat × Bytes) := []
+  /-- end-to-end mode: configuration of the block and server state -/
+  econf : Option E2E.Conf := none
+  est : E2E.St := {}
 
 def stepHB (st : St) (ins impl : List String) : Option (St × String) := do
   match ins, impl with
@@ -95,7 +99,7 @@ def stepHB (st : St) (ins impl : List String) : Option (St × String) := do
     let expect' := match implOut with
       | .ok _ => (r, match clientIDFromCtx c with | .ok id => id | .error _ => []) :: st.expect.filter (·.1 != r)
       | .error _ => st.expect
-    pure ({ cache := cache', expect := expect' }, verdict agree spec (showOut m))
+    pure ({ st with cache := cache', expect := expect' }, verdict agree spec (showOut m))
   | _, _ => none
 
 def stepAttr (st : St) (ins impl : List String) : Option (St × String) := do
@@ -109,10 +113,127 @@ def stepAttr (st : St) (ins impl : List String) : Option (St × String) := do
     pure (st, verdict (m == i) spec (hexEncode m))
   | _, _ => none
 
+
+/-! ### End-to-end mode (`C16E.*`) -/
+
+def parseTr (s : String) : Option E2E.Tr :=
+  match s with
+  | "udp" => some .udp | "tcp" => some .tcp | "dot" => some .dot | "doq" => some .doq
+  | "h1" => some .h1 | "h2" => some .h2 | "hp" => some .hp | "dcu" => some .dcu
+  | _ => none
+
+def parseList (n : Nat) (fs : List String) : Option (List Bytes × List String) :=
+  match n with
+  | 0 => some ([], fs)
+  | n + 1 =>
+    match fs with
+    | [] => none
+    | f :: rest => do
+      let b ← hexDecode f
+      let (bs, rest') ← parseList n rest
+      pure (b :: bs, rest')
+
+def parsePairs (n : Nat) (fs : List String) : Option (List (Bytes × Bytes)) :=
+  match n with
+  | 0 => if fs.isEmpty then some [] else none
+  | n + 1 =>
+    match fs with
+    | k :: v :: rest => do
+      let kb ← hexDecode k
+      let vb ← hexDecode v
+      let ps ← parsePairs n rest
+      pure ((kb, vb) :: ps)
+    | _ => none
+
+/-- `C16E.reset srvName strict nCert certName… plainDoH` -/
+def parseEConf (f : List String) : Option E2E.Conf := do
+  match f with
+  | srv :: strict :: n :: rest =>
+    let (names, rest') ← parseList (← n.toNat?) rest
+    match rest' with
+    | [plain] =>
+      pure { srvName := ← hexDecode srv, strict := ← parseBool strict, certNames := names,
+             plainDoH := ← parseBool plain }
+    | _ => none
+  | _ => none
+
+/-- `C16E.q proto slot peer sni sniValid method target host splitOk splitHost dnsOK edns qname nHdr (k v)…` -/
+def parseEReq (f : List String) : Option E2E.Req := do
+  match f with
+  | proto :: _slot :: peer :: sni :: sniValid :: method :: target :: host :: splitOk :: splitHost ::
+      dnsOK :: edns :: qname :: nh :: hdrs =>
+    pure {
+      tr := ← parseTr proto
+      sni := ← hexDecode sni
+      sniValidHost := ← parseBool sniValid
+      method := ← (if method == "GET" then some E2E.Method.get else if method == "POST" then some .post else none)
+      target := ← hexDecode target
+      host := ← hexDecode host
+      hostSplit := optOf (← parseBool splitOk) (← hexDecode splitHost)
+      dnsOK := ← parseBool dnsOK
+      peer := ← hexDecode peer
+      edns := ← hexDecode edns
+      qname := ← hexDecode qname
+      hdrs := ← parsePairs (← nh.toNat?) hdrs }
+  | _ => none
+
+def parseIds (s : String) : Option (List Bytes) :=
+  if s == "none" then some []
+  else if s.startsWith "id:" then (hexDecode (s.drop 3).toString).map ([·])
+  else if s.startsWith "mixed:" then ((s.drop 6).toString.splitOn ",").mapM hexDecode
+  else none
+
+def parseCls (s : String) : E2E.Cls :=
+  if s == "ans" then .ans
+  else if s == "servfail" then .servfail
+  else if s == "rst" then .rst
+  else if s == "hs" then .hs
+  else if s.startsWith "http" then
+    match (s.drop 4).toString.toNat? with
+    | some n => .http n
+    | none => .other
+  else .other
+
+def parseObs (impl : List String) : Option E2E.Obs := do
+  match impl with
+  | [cls, nlog, log, stat, ups, filt, upsN] =>
+    pure { cls := parseCls cls, nlog := ← nlog.toNat?, log := ← parseIds log, stat := ← parseIds stat,
+           ups := ← parseIds ups, filt := ← parseIds filt, upsN := ← upsN.toNat? }
+  | _ => none
+
+def showIds (id : Bytes) : String := "id:" ++ hexEncode id
+
+def showEOut : E2E.Out → String
+  | .ans id => "ans\t1\t" ++ showIds id ++ "\t" ++ showIds id ++ "\t" ++ showIds id ++ "\t" ++ showIds id ++ "\t1"
+  | .servfail => "servfail\t0\tnone\tnone\tnone\tnone\t0"
+  | .http n => "http" ++ toString n ++ "\t0\tnone\tnone\tnone\tnone\t0"
+  | .rst => "rst\t0\tnone\tnone\tnone\tnone\t0"
+  | .hs => "hs\t0\tnone\tnone\tnone\tnone\t0"
+
+def stepEQ (st : St) (ins impl : List String) : Option (St × String) := do
+  let cf ← st.econf
+  let r ← parseEReq ins
+  let o ← parseObs impl
+  let (est', m) := E2E.step cf st.est r
+  let agree := showEOut m == "\t".intercalate impl
+  pure ({ st with est := est' }, verdict agree (E2E.specE2EWhy cf r o) (showEOut m))
+
 def step (st : St) (line : String) : St × String :=
   let fs := splitTab line
   match fs with
   | "C16.reset" :: _ => ({}, verdict true none "reset")
+  | "C16E.reset" :: rest =>
+    match splitArrow rest with
+    | some (ins, _) =>
+      (match parseEConf ins with
+       | some cf => ({ econf := some cf }, verdict true none "reset")
+       | none => (st, "bad-op"))
+    | none => (st, "bad-op")
+  | "C16E.reconf" :: _ => ({ st with est := E2E.reconf st.est }, verdict true none "reconf")
+  | "C16E.q" :: rest =>
+    match splitArrow rest with
+    | some (ins, impl) => (match stepEQ st ins impl with | some (s', o) => (s', o) | none => (st, "bad-op"))
+    | none => (st, "bad-op")
   | "C16.ctx" :: rest =>
     match splitArrow rest with
     | some (ins, impl) => (st, (stepCtx ins impl).getD "bad-op")
